@@ -14,7 +14,7 @@ def offsetOk (windowSize dictSize pos blockEnd offset : Nat) : Bool :=
   (decide (offset ≤ windowSize) || decide (blockEnd ≤ windowSize))
 
 /-- violations of one frame (empty list = conformant) -/
-def checkFrame (t : FrameTrace) (dictSize : Nat) (expectDictID : Option Nat) (maxBlockSize : Nat := 0) : List String := Id.run do
+def checkFrame (t : FrameTrace) (dictSize : Nat) (expectDictID : Option Nat) (maxBlockSize : Nat := 0) (subBlocks : Bool := false) : List String := Id.run do
   let mut v : List String := []
   if t.hdr.skippable then return v
   let h := t.hdr
@@ -41,6 +41,10 @@ def checkFrame (t : FrameTrace) (dictSize : Nat) (expectDictID : Option Nat) (ma
         let lastCount := if mML == 2 then u3 else if mOF == 2 then u2 else if mLL == 2 then u1 else 0
         if tr.nbSeq > 0 && lastCount != 0 && lastCount + tr.bitstreamSize < 4 then
           v := v ++ [s!"block {bi}: last table description + bitstream < 4 bytes"]
+        -- sub-block path (ZSTD_c_targetCBlockSize, zstd_compress_superblock.c): decoders <= 1.4.0 reject a sequences section whose body
+        -- (compression-modes byte + table descriptions + bit stream) is shorter than 4 bytes; such a sub-block is emitted raw instead
+        if subBlocks && tr.nbSeq > 0 && 1 + u1 + u2 + u3 + tr.bitstreamSize < 4 then
+          v := v ++ [s!"block {bi}: sub-block sequences section body of {1 + u1 + u2 + u3 + tr.bitstreamSize} bytes (< 4)"]
         let blockEnd := pos + b.regen
         let mut p := pos
         for sq in tr.seqs do
